@@ -89,6 +89,18 @@ func startServer() (*pipeListener, error) {
 				m.SetTsig(ts.Hdr.Name, ts.Algorithm, 300, time.Now().Unix())
 			}
 			w.WriteMsg(m)
+			if ts != nil && st == nil && len(r.Question) == 1 && r.Question[0].Qtype == dns.TypeAXFR {
+				// a stream of envelopes: the first one was signed over the request MAC and all
+				// variables, the following ones over the previous MAC and the timers (RFC 8945 5.3.1)
+				w.TsigTimersOnly(true)
+				for i := 0; i < 1+int(r.Id%3); i++ {
+					e := new(dns.Msg)
+					e.SetReply(r)
+					e.Answer = append(e.Answer, &dns.TXT{Hdr: dns.RR_Header{Name: "envelope.", Rrtype: dns.TypeTXT, Class: dns.ClassCHAOS}, Txt: []string{fmt.Sprint(i + 1)}})
+					e.SetTsig(ts.Hdr.Name, ts.Algorithm, 300, time.Now().Unix())
+					w.WriteMsg(e)
+				}
+			}
 		})
 		started := make(chan struct{})
 		srv := &dns.Server{Listener: srvL, Handler: h, TsigSecret: secrets, NotifyStartedFunc: func() { close(started) }}
@@ -116,6 +128,15 @@ type e2eCase struct {
 }
 
 func exchange(l *pipeListener, req []byte) ([]byte, error) {
+	r, err := exchangeN(l, req, func([]byte) int { return 0 })
+	if len(r) == 0 {
+		return nil, err
+	}
+	return r[0], err
+}
+
+// exchangeN sends one request and reads 1 + more(first reply) replies.
+func exchangeN(l *pipeListener, req []byte, more func(first []byte) int) ([][]byte, error) {
 	c := l.dial()
 	defer c.Close()
 	c.SetDeadline(time.Now().Add(20 * time.Second)) // watchdog only: a normal exchange takes well under a millisecond
@@ -125,15 +146,23 @@ func exchange(l *pipeListener, req []byte) ([]byte, error) {
 	if _, err := c.Write(buf); err != nil {
 		return nil, err
 	}
-	var lb [2]byte
-	if _, err := io.ReadFull(c, lb[:]); err != nil {
-		return nil, err
+	var out [][]byte
+	n := 1
+	for i := 0; i < n; i++ {
+		var lb [2]byte
+		if _, err := io.ReadFull(c, lb[:]); err != nil {
+			return out, err
+		}
+		resp := make([]byte, binary.BigEndian.Uint16(lb[:]))
+		if _, err := io.ReadFull(c, resp); err != nil {
+			return out, err
+		}
+		out = append(out, resp)
+		if i == 0 {
+			n += more(resp)
+		}
 	}
-	resp := make([]byte, binary.BigEndian.Uint16(lb[:]))
-	if _, err := io.ReadFull(c, resp); err != nil {
-		return nil, err
-	}
-	return resp, nil
+	return out, nil
 }
 
 func checkE2E(c e2eCase) error {
@@ -149,6 +178,11 @@ func checkE2E(c e2eCase) error {
 	spec := c.Msg
 	spec.Response, spec.Opcode, spec.Rcode = false, 0, 0
 	spec.Question = spec.Question[:1]
+	if c.Variant == "multi" {
+		spec.Question[0] = msgspec.Q{Name: spec.Question[0].Name, Type: dns.TypeAXFR, Class: 1}
+	} else if spec.Question[0].Type == dns.TypeAXFR {
+		spec.Question[0].Type = dns.TypeA
+	}
 	spec.Answer, spec.Ns = nil, nil
 	if len(spec.Extra) > 1 { // the default MsgAcceptFunc refuses more than two additional records (one + TSIG)
 		spec.Extra = spec.Extra[:1]
@@ -226,7 +260,20 @@ func checkE2E(c e2eCase) error {
 	pbt.Note(append([]byte(c.Variant+"|"+key.name+"|"), packed...), c.Variant != "none" && c.Variant != "good",
 		"variant="+c.Variant, "key="+key.name, fmt.Sprintf("ref-accepts=%v", refOK))
 
-	resp, xerr := exchange(l, req)
+	extra := 0
+	if c.Variant == "multi" {
+		extra = 1 + int(binary.BigEndian.Uint16(req)%3)
+	}
+	resps, xerr := exchangeN(l, req, func(first []byte) int {
+		if mp, e := ref.Walk(first); e == nil && mp.AR > 0 && mp.RRs[len(mp.RRs)-1].Type == ref.TypeTSIG {
+			return extra // the handler only streams after a verified request, which it answers with a signed first envelope
+		}
+		return 0
+	})
+	var resp []byte
+	if len(resps) > 0 {
+		resp = resps[0]
+	}
 	if xerr != nil {
 		if c.Variant == "tampered" {
 			pbt.Class("tampered-request-not-answered") // the flip made the question undecodable: the server answers FORMERR or drops
@@ -290,6 +337,23 @@ func checkE2E(c e2eCase) error {
 	if libVerify(resp, key.secret, nil, false, now2) == nil {
 		return pbt.Errf("the server's reply verifies without the request MAC")
 	}
+	if c.Variant == "multi" {
+		if len(resps) != 1+extra {
+			return pbt.Errf("expected %d envelopes, got %d", 1+extra, len(resps))
+		}
+		prev := rv.Tsig.MAC
+		for i, env := range resps[1:] {
+			ev := ref.TsigVerify(env, ring, prev, true, now2, false)
+			if !ev.OK {
+				return pbt.Errf("envelope %d of %d written after TsigTimersOnly(true) does not verify against the previous MAC with the timers-only digest (reference: %s)", i+2, len(resps), ev.Why)
+			}
+			if lerr := libVerify(env, key.secret, prev, true, now2); lerr != nil {
+				return pbt.Errf("TsigVerify (client side) of envelope %d failed: %v", i+2, lerr)
+			}
+			prev = ev.Tsig.MAC
+			pbt.Class("stream-envelope-verified")
+		}
+	}
 	return nil
 }
 
@@ -299,7 +363,7 @@ func genE2E(t *rapid.T) e2eCase {
 		c.Msg.Question = []msgspec.Q{{Name: 0, Type: 1, Class: 1}}
 	}
 	c.Key = rapid.IntRange(0, len(e2eKeys)-1).Draw(t, "key")
-	c.Variant = rapid.SampledFrom([]string{"good", "good", "edge", "late", "early", "tampered", "tampered", "wrongsecret", "unknownkey", "casekey", "none", "libsigned"}).Draw(t, "variant")
+	c.Variant = rapid.SampledFrom([]string{"good", "good", "edge", "late", "early", "tampered", "tampered", "wrongsecret", "unknownkey", "casekey", "none", "libsigned", "multi", "multi"}).Draw(t, "variant")
 	c.Fudge = rapid.OneOf(rapid.Just(uint16(300)), rapid.Uint16Range(300, 65535)).Draw(t, "fudge")
 	c.FlipBit = rapid.IntRange(0, 1<<20).Draw(t, "flipbit")
 	c.UpperAlg = rapid.IntRange(0, 3).Draw(t, "upperalg") == 0
